@@ -239,9 +239,27 @@ func typesTrace(en *Env, t int, ncmd int) int {
 		if r.Intn(15) == 0 {
 			cn := h.Guard(h.CallTimeout, func() error { return svc.Close() })
 			on := "ok"
-			if cn == "ok" {
+			if cn == "ok" && r.Intn(2) == 0 {
+				// between two sessions of the service the store is opened directly and merged (the next session
+				// adopts the merge): records with empty values - set members, score-index entries - are live too
+				on = h.Guard(h.CallTimeout, func() error {
+					db, err := kv.Open(cfg.Options(dir))
+					if err != nil {
+						return err
+					}
+					merr := db.Merge()
+					if err := db.Close(); err != nil {
+						return err
+					}
+					if merr != nil && !errors.Is(merr, kv.ErrMergeOutputTooLarge) {
+						return merr
+					}
+					return nil
+				})
+			}
+			if cn == "ok" && on == "ok" {
 				on = open()
-			} else {
+			} else if cn != "ok" {
 				on = cn
 			}
 			en.T.Emit(h.Ev{"ev": "restart", "err": on})
